@@ -80,7 +80,6 @@ func vpTagHdr(tag byte, name string) []byte {
 
 func vpStr(s string) []byte { return append(vpBE(uint64(len(s)), 2), s...) }
 
-
 type vpEmb struct {
 	E int16 `nbt:"e"`
 }
